@@ -289,7 +289,9 @@ class Ctx:
             json.dump(ev, f, indent=1, default=str)
         self.cleanup_cases()
         if self.violations:
-            for path, found, what in self.violations:
+            # failing inputs first; at most 6 lines (every violation still has its replay file)
+            vs = sorted(self.violations, key=lambda v: not v[1])[:6]
+            for path, found, what in vs:
                 print("VIOLATION property=%s replay=%s%s" % (self.pid, path, "" if found else " no-failing-input-found"))
             return 1
         print("OK property=%s tier=%s obligations=%d/%d evaluations=%d wall=%.1fs" % (
